@@ -376,6 +376,23 @@ def run_case(rec, inp):
             for c, v in others:
                 rec.check(usable(v) and abs(v - base) <= tol(base), key, "likelihood of ratio-type lens(es) changes when only h0 is rescaled", inp,
                           dict(point=ip, c=c, L_h0=base, L_h0c=v, diff=v - base), "equal within %g relative" % RTOL)
+        # a profile scan over the dark-energy equation of state at fixed (h0, om) on ONE object, then an H0 rescaling: the value at the
+        # new equation of state must not remember the previous one (an interpolation table keyed on H0/Om0/Ode0 only would)
+        if inp["cosmology"] in ("FwCDM", "w0waCDM") and inp["points"]:
+            wkey = "w" if inp["cosmology"] == "FwCDM" else "w0"
+            pt = copy.deepcopy(inp["points"][0]); h0 = pt["kwargs_cosmo"]["h0"]
+            pt2 = copy.deepcopy(pt); pt2["kwargs_cosmo"][wkey] = min(pt["kwargs_cosmo"][wkey] + 0.35, -0.35)
+            try:
+                evaluate(clA, pt, h0, seed + 31)
+                b2 = evaluate(clA, pt2, h0, seed + 31)
+                v2 = evaluate(clA, pt2, h0 * inp["c"][0], seed + 31)
+                if usable(b2):
+                    key = ("C19:ratio:" + tname) if len(types) == 1 else "C19:sample:ratio_flat"
+                    rec.check(usable(v2) and abs(v2 - b2) <= tol(b2), key,
+                              "after a step in the equation of state at fixed (h0, om) on the same object, the ratio-type likelihood changes when only h0 is rescaled",
+                              inp, dict(history=[pt["kwargs_cosmo"], pt2["kwargs_cosmo"]], c=inp["c"][0], L_h0=b2, L_h0c=v2, diff=v2 - b2), "equal within %g relative" % RTOL)
+            except Exception as e:
+                rec.violation("C19:raises:" + tname, "likelihood raised", inp, dict(history=True, err=repr(e)))
         # explicit-cosmology path with gamma_ppn reaching the lens
         try:
             from hierarc.Likelihood.lens_sample_likelihood import LensSampleLikelihood
